@@ -1141,6 +1141,12 @@ def pixel_translation(a: GeoBox, b: GeoBox) -> XY[float]:
     ):
         raise ValueError("Incompatible grids")
 
+    # "close" per pixel is not close across a long raster: a pixel size off by 9e-6 moves the
+    # far edge of a 200_000 pixel image by almost two pixels
+    npix = max(1, *a.shape, *b.shape)
+    if npix * max(abs(sx - 1), abs(sy - 1), abs(z1), abs(z2)) > 1e-2:
+        raise ValueError("Incompatible grids")
+
     return xy_(tx, ty)
 
 
